@@ -86,6 +86,28 @@ fn gen_bracket_break(rng: &mut Rng, n: usize, depth: usize) -> BracketBreak {
         let kind = format!("index:{}:same-line", if tok == "7" { "elem-after-missing-comma" } else { tok });
         return BracketBreak { lines, bad_rel: 0, kind, stats: vec!["bracket=index".into(), "bracket_place=same-line".into()] };
     }
+    if depth == 0 && rng.chance(1, 10) {
+        // an error that the parser registers and raises later (`key as name` in a map that turns out
+        // not to be an assignment target): with several rebinds on different lines the FIRST is
+        // the offending token
+        let (open, close) = *rng.pick(&[("q = {", "}"), ("q = id1({", "})"), ("q = [1, {", "}]"), ("return {", "}"), ("q = {a: {", "}}")]);
+        let mut lines = vec![open.replace("q =", &format!("q{n} ="))];
+        let before = rng.below(3);
+        for i in 0..before {
+            lines.push(format!("  b{i}: {},", rng.below(90)));
+        }
+        let rebinds = 1 + rng.weighted(&[1, 3, 2, 1]);
+        let bad_rel = lines.len();
+        for i in 0..rebinds {
+            lines.push(format!("  k{i} as r{i},"));
+            if rng.chance(1, 3) {
+                lines.push(format!("  c{i}: {},", rng.below(90)));
+            }
+        }
+        lines.push(close.to_string());
+        let stats = vec!["bracket=map-rebind-on-rhs".to_string(), format!("bracket_repeated_bad_tokens={rebinds}")];
+        return BracketBreak { lines, bad_rel, kind: format!("map-rebind-on-rhs:x{rebinds}"), stats };
+    }
     let c = rng.below(BR_CONSTRUCTS);
     let sh = br_shape(rng, c, n);
     let mut stats = vec![format!("bracket={}", sh.name)];
@@ -177,7 +199,12 @@ fn gen_bracket_break(rng: &mut Rng, n: usize, depth: usize) -> BracketBreak {
             stats.push("bracket_assign_target_blamed=yes".into());
         }
     }
-    // the rest of the construct
+    // the rest of the construct; sometimes with a second bad token on a later line (the first one
+    // must be reported)
+    if bk != 3 && rng.chance(1, 4) {
+        lines.push(format!("{ei}{}", *rng.pick(&["then", "else", "=", wrong_closers[0]])));
+        stats.push("bracket_repeated_bad_tokens=2".into());
+    }
     if bk != 3 {
         if rng.chance(1, 2) {
             lines.last_mut().unwrap().push(',');
